@@ -1,12 +1,15 @@
 #!/bin/bash
-# Re-evaluates every stored seeded change against the quick check of its own property (and, when that misses, all checks).
+# Re-evaluates every stored seeded change against the quick check(s) that caught it last time (its own property's check
+# when nothing did).  Usage: eval_all_seeded.sh [PART OF]   e.g. "0 2" and "1 2" for two parallel halves.
 cd "$(dirname "${BASH_SOURCE[0]}")"
-for d in ../seeded/C*-*; do
+part=${1:-0}; of=${2:-1}; i=0
+for d in $(ls -d ../seeded/C*-* | sort -t- -k1,1 -k2,2n); do
+  i=$((i+1)); [ $((i % of)) -eq "$part" ] || continue
   id=$(basename "$d"); pid=${id%%-*}; k=${id##*-}
-  out=$(MUT_OFFSET=0 ./eval_seeded.py "$pid" "$k" 2>&1 | head -1)
-  echo "$out" | cut -c1-200
-  if echo "$out" | grep -q "caught by \[\]"; then
-    MUT_OFFSET=0 ./eval_seeded.py "$pid" "$k" C03 C05 C06 C08 C12 C13 C15 C19 2>&1 | head -1 | cut -c1-200
-  fi
+  checks=$(/venv/bin/python -c "
+import json,sys
+m=json.load(open('$d/meta.json')); c=m.get('confirmed',{}).get('caught_by') or []
+print(' '.join(c if c else ['$pid']))")
+  MUT_OFFSET=0 ./eval_seeded.py "$pid" "$k" $checks 2>&1 | head -1 | cut -c1-220
 done
-./summarise_seeded.py
+[ "$of" -eq 1 ] && ./summarise_seeded.py
